@@ -265,7 +265,7 @@ def import_macro_rules(fx, rep):
     c12.check(fx, sub, 'quick')
     n = 0
     for i in sub.insts:
-        if i.rule in ('R12.4', 'R12.3', 'R12.7'):
+        if i.rule in ('R12.4', 'R12.3', 'R12.7', 'R12.8'):
             n += 1
             (rep.ok if i.ok else rep.bad)('R15.5', i.rule + '|' + i.key, i.where, i.msg, i.detail)
     sub = engine.Report('C05', 'quick')
